@@ -93,6 +93,16 @@ def r06_d(ctx):
                 e = n.exc.func if isinstance(n.exc, ast.Call) else n.exc
                 name = norm(e)
                 ok = name in DIAGNOSTIC
+                if not ok and isinstance(n.exc, ast.Call) and isinstance(e, ast.Name):
+                    # `raise _malformed_argument(s)`: a helper that builds the exception -- what it returns counts
+                    r_ = repo.resolve(fd.module, e.id)
+                    if r_ and r_[0] == 'func':
+                        rets = [x for x in ast.walk(r_[1].node) if isinstance(x, ast.Return)]
+                        built = {norm(x.value.func) if isinstance(x.value, ast.Call) else norm(x.value) if x.value is not None else 'None'
+                                 for x in rets}
+                        if rets and built <= set(DIAGNOSTIC):
+                            ok = True
+                            name = '%s (built by %s)' % (sorted(built)[0], e.id)
                 rr.ob(ok, {'function': fd.fq, 'raises': name})
                 if not ok:
                     rr.fail(Finding('R06.d', fd.module.name, fd.qual, n,
